@@ -78,18 +78,18 @@ type ClientConn struct {
 	LeaveBeforeResponse bool
 	StartStep           int // not dialled before this scheduler step
 
-	conn           *simnet.Conn
-	dialed         bool
-	refused        bool
-	sent           int // requests whose bytes have been queued
-	got            int // responses parsed
-	buf            []byte
-	closed         bool
-	vanished       bool
-	bytesOut       int // bytes queued so far
-	headLeft       int // bytewise deliveries left (Frag 2)
-	scrapeBlocked  bool   // set by the priority-scrape phase
-	blockedWhy     string
+	conn          *simnet.Conn
+	dialed        bool
+	refused       bool
+	sent          int // requests whose bytes have been queued
+	got           int // responses parsed
+	buf           []byte
+	closed        bool
+	vanished      bool
+	bytesOut      int  // bytes queued so far
+	headLeft      int  // bytewise deliveries left (Frag 2)
+	scrapeBlocked bool // set by the priority-scrape phase
+	blockedWhy    string
 	// FreezeAt > 0: a slow uploader - once this many bytes have been delivered, nothing more is delivered until
 	// the world thaws (the client is alive, just not sending for now). AfterFrozen: not dialled before every
 	// slow uploader has reached its freeze point.
@@ -116,17 +116,24 @@ func (c *ClientConn) HeadersDelivered(i, n int) bool {
 }
 
 type World struct {
+	// Knobs: pre-drawn values (0 = leave the default) for configuration fields of server.Config that this
+	// harness does not know by name - whatever tuning knobs (timeouts, limits, switches) the tree under test
+	// offers today. Applied by reflection in field order when the operator builds the configuration;
+	// KnobLog records what was set. Empty on a tree whose Config has only the three known fields.
+	Knobs   []int
+	KnobLog []string
 	// slow-uploader phase (ClientConn.FreezeAt): Thawed once the frozen clients resume; BlockedByFrozen lists the
 	// completely sent requests of other clients that were still unanswered when the system had gone quiet.
 	Thawed             bool
+	ThawAfter          int // seconds of fake-time quiet after which the slow uploaders resume (default 5, at most 12)
 	FrozenPhaseReached bool
 	BlockedByFrozen    []*Request
-	Sim    *Sim
-	Sys    *gtier.System
-	Conns  []*ClientConn
-	reqs   []*Request
-	Cycles int   // start/stop cycles the operator performs
-	StopAt []int // per cycle: scheduler step at which stop is requested (-1: when all client work is done)
+	Sim                *Sim
+	Sys                *gtier.System
+	Conns              []*ClientConn
+	reqs               []*Request
+	Cycles             int   // start/stop cycles the operator performs
+	StopAt             []int // per cycle: scheduler step at which stop is requested (-1: when all client work is done)
 	// StopAfterBegun >= 0 (first cycle only): stop is requested this many steps after the first
 	// request's header block reached the server, i.e. while its handler is running.
 	StopAfterBegun int
@@ -255,6 +262,11 @@ func (w *World) operator(mode string) {
 	for cycle := 0; cycle < w.Cycles; cycle++ {
 		w.op.cycle = cycle
 		cfg := server.Config{ProverAddress: ProverAddr, MetricsAddress: MetricsAddr, Mode: mode}
+		if cycle == 0 {
+			w.KnobLog = ApplyKnobs(&cfg, w.Knobs)
+		} else {
+			ApplyKnobs(&cfg, w.Knobs)
+		}
 		job := server.Run(&cfg, w.Sys.PS)
 		w.op.running.Store(true)
 		<-w.op.stopSignal
@@ -374,6 +386,11 @@ func (w *World) operatorActions() []Action {
 			w.begunStep = w.Sim.Step
 		}
 		due = (w.begunStep > 0 && w.Sim.Step >= w.begunStep+w.StopAfterBegun) || (w.IdleRounds > 0 && w.clientWorkDone())
+		// a slow uploader has stalled and everything is quiet: the scripted stop position cannot be reached
+		// by steps any more - the stop comes now, while that request sits in its handler waiting for its body
+		if !due && w.begunStep > 0 && w.IdleRounds > 0 && w.hasFrozen() && !w.Thawed {
+			due = true
+		}
 	} else if at >= 0 {
 		// a scripted position beyond the point where everything has gone quiet means "then"
 		due = w.Sim.Step >= at || (w.IdleRounds > 0 && w.clientWorkDone())
@@ -658,7 +675,11 @@ func (w *World) Run(mode string) {
 		if w.finished() {
 			break
 		}
-		if !progressed && !w.Thawed && w.hasFrozen() && w.IdleRounds >= 5 {
+		thawAfter := 5
+		if w.ThawAfter > 0 {
+			thawAfter = w.ThawAfter
+		}
+		if !progressed && !w.Thawed && w.hasFrozen() && w.IdleRounds >= thawAfter {
 			// Quiet for five seconds of fake time with the slow uploaders frozen: whatever another client has
 			// sent completely must have been answered by now - its response may not wait for other clients.
 			for _, c := range w.Conns {
@@ -918,4 +939,48 @@ type OpView struct {
 func (w *World) Op() OpView {
 	return OpView{CyclesDone: int(w.op.cyclesDone.Load()), Finished: w.op.finished.Load(), BoundAfter: w.op.boundAfter,
 		RebindErr: w.op.rebindErr, StopStep: w.op.stopStep, HandlersAtStop: w.op.handlersAtStop}
+}
+
+// ApplyKnobs sets the configuration fields the harness does not know by name from pre-drawn values:
+// durations from {default, 1s, 3s, 10s, 45s}, integers from {default, 1, 2, 4, 64}, switches on/off.
+// A supported option is part of the system: the properties quantify over requests and timings, not over
+// "the default configuration only". Fields of other kinds are left alone.
+func ApplyKnobs(cfg *server.Config, draws []int) []string {
+	var log []string
+	v := reflect.ValueOf(cfg).Elem()
+	k := 0
+	for i := 0; i < v.NumField(); i++ {
+		f := v.Type().Field(i)
+		switch f.Name {
+		case "ProverAddress", "MetricsAddress", "Mode":
+			continue
+		}
+		if !f.IsExported() || k >= len(draws) {
+			continue
+		}
+		d := draws[k]
+		k++
+		if d == 0 {
+			continue
+		}
+		fv := v.Field(i)
+		switch {
+		case fv.Type() == reflect.TypeOf(time.Duration(0)):
+			val := []time.Duration{0, time.Second, 3 * time.Second, 10 * time.Second, 45 * time.Second}[d%5]
+			fv.SetInt(int64(val))
+			log = append(log, fmt.Sprintf("%s=%v", f.Name, val))
+		case fv.Kind() == reflect.Bool:
+			fv.SetBool(d%2 == 1)
+			log = append(log, fmt.Sprintf("%s=%v", f.Name, d%2 == 1))
+		case fv.CanInt():
+			val := []int64{0, 1, 2, 4, 64}[d%5]
+			fv.SetInt(val)
+			log = append(log, fmt.Sprintf("%s=%d", f.Name, val))
+		case fv.CanUint():
+			val := []uint64{0, 1, 2, 4, 64}[d%5]
+			fv.SetUint(val)
+			log = append(log, fmt.Sprintf("%s=%d", f.Name, val))
+		}
+	}
+	return log
 }
